@@ -722,3 +722,33 @@ Theorem validator_slash_life_cycle_if_fixed : Gen_OracleSlash.unbond_needs_entry
 Proof.
   intro F; first [ discriminate F | cbv zeta; vm_compute; repeat split; reflexivity ].
 Qed.
+
+(* ------------------------------------------------------------------ *)
+(* oracle-set requests and pruning (computed, no input bit)            *)
+
+(* pruneOracleSet removes only oracle sets that are past the signed window and older than the set the external
+   chain has adopted; it never touches the registry or the stake *)
+Theorem prune_only_old_observed : forall s x, In x (sets s) -> ~ In x (sets (prune_sets s)) ->
+  exists lo, last_obs s = Some lo /\ ob_height x < height s - p_window (prm s) /\ ob_nonce x < lo.
+Proof.
+  intros s x Hin Hout. unfold prune_sets in Hout. destruct (last_obs s) as [lo|]; [|contradiction].
+  destruct (height s <? p_window (prm s)); [contradiction|].
+  unfold set_objs in Hout; proj. exists lo. split; auto.
+  destruct ((ob_height x <? height s - p_window (prm s)) && (ob_nonce x <? lo)) eqn:E.
+  - apply andb_true_iff in E. destruct E as [E1 E2]. apply Z.ltb_lt in E1, E2. auto.
+  - exfalso. apply Hout. apply filter_In. split; auto. rewrite E. reflexivity.
+Qed.
+
+(* non-vacuity of the computed request rule and of pruning: the first block stores set 1; removing oracle 0
+   (power 100 of 700: difference 2/7 >= 10 %) makes the end blocker request set 2 although nobody was slashed;
+   an unchanged block requests nothing; once the external chain has adopted set 2, set 1 is pruned when it is
+   past the window *)
+Example oset_request_nonvacuous :
+  let s1 := run w_init (w_setup ++ confirm_all 1 (-1)) in
+  map ob_nonce (sets s1) = [1] /\ set_mem s1 1 <> [] /\
+  map ob_nonce (sets (exec s1 (EndBlock 10 15 false))) = [1] /\
+  let s2 := run s1 [GovSet [1; 2; 3; 4; 5; 6] []; EndBlock 10 15 false] in
+  map ob_nonce (sets s2) = [1; 2] /\ length (set_mem s2 2) = 6%nat /\
+  let s3 := run s2 (confirm_all 2 0 ++ [ObserveSet 2; EndBlock 15 20 false; EndBlock 20 25 false; EndBlock 25 30 false]) in
+  map ob_nonce (sets s3) = [2] /\ last_obs s3 = Some 2 /\ recs s3 1 = recs s2 1.
+Proof. vm_compute. repeat split; try reflexivity; discriminate. Qed.
